@@ -229,6 +229,9 @@ func (cr *checkRun) runUnit(full string) {
 		if o.Cover {
 			if o.OK() {
 				ue.Covers++
+			} else if o.Res.Status != "unsat" {
+				// undecided vacuity guard (solver gave up): not a refutation of reachability; reported, not an alarm
+				ue.SoftCovers = append(ue.SoftCovers, o.Name+" (undecided: "+o.Res.Status+")")
 			} else {
 				ue.Failed = append(ue.Failed, o.Name)
 				cr.viol = append(cr.viol, violation{Obligation: o.Name, Kind: "vacuity", Unit: full, Detail: "cover obligation not satisfiable (" + o.Res.Status + "): the contract or an invariant is contradictory or the code is unreachable"})
